@@ -422,8 +422,7 @@ ENTRY_STATES = [
     "absent", "raw_valid", "raw_valid_gpg_shape", "gpg_valid", "gpg_valid_see_also", "other_payload", "misfiled",
     "bitflip", "truncated", "upper_sig", "extra_field", "nondict", "alt_upper", "alt_space", "alt_0x",
     "alt_inner_space", "alt_nonascii_digit", "alt_mixed_case", "gpg_bad_header", "gpg_other_payload", "gpg_bad_see_also",
-    "gpg_empty_header", "zero_sig", "bare_sig_string", "sig_in_list", "nonascii_value",
-]
+    "gpg_empty_header", "zero_sig", "bare_sig_string", "sig_in_list", "nonascii_value", "scalar_plus_order"]
 
 
 def make_entry(rng, state: str, k: Key, data: bytes, gpg: bool, other: Key):
@@ -450,6 +449,16 @@ def make_entry(rng, state: str, k: Key, data: bytes, gpg: bool, other: Key):
         e = raw_entry(other, data) if not gpg else gpg_entry(other, data, hdr)
         return k.hex, e
     valid = raw_entry(k, data) if not gpg else gpg_entry(k, data, hdr)
+    if state == "scalar_plus_order":
+        # the classic second encoding of a valid signature: its scalar half plus the group order (RFC 8032 demands S < L: not a valid signature)
+        L_ = 2 ** 252 + 27742317777372353535851937790883648493
+        sb = bytes.fromhex(valid["signature"])
+        s2 = int.from_bytes(sb[32:], "little") + L_
+        if s2 < 2 ** 256:
+            valid["signature"] = (sb[:32] + s2.to_bytes(32, "little")).hex()
+        else:
+            valid["signature"] = (sb[:32] + (s2 - L_ ^ 1).to_bytes(32, "little")).hex()      # (cannot be encoded: an ordinary corruption instead)
+        return k.hex, valid
     if state == "bitflip":
         s = valid["signature"]
         i = rng.randrange(len(s))
@@ -580,10 +589,20 @@ def delegating_md(typ: str, delegations: dict, version=1, timestamp="2020-07-13T
     return _order(md)
 
 
+ROOT_TIMES = [("2020-07-13T05:46:45Z", "2031-07-13T05:46:45Z"), ("2019-01-01T00:00:00Z", "2030-01-01T00:00:00Z"), ("2025-06-30T00:00:00Z", "2026-06-30T00:00:00Z"),
+              ("1999-12-31T23:59:59Z", "2000-01-01T00:00:00Z"), (None, "2031-07-13T05:46:45Z"), ("2020-07-13T05:46:45Z", "2020-07-13T05:46:45Z"), ("2030-01-01T00:00:00Z", "2021-01-01T00:00:00Z")]
+
+
 def root_md(root_keys: list[Key], root_thr, km_keys: list[Key], km_thr, version=1, extra: dict | None = None) -> dict:
     dels = {"root": delegation(root_keys, root_thr), "key_mgr": delegation(km_keys, km_thr)}
     if extra:
         dels.update(extra)
+    # what a root says about *when* it was made or expires plays no part in any verdict (the library does not compare times): successors dated before their
+    # predecessors, without a timestamp, already expired, expiring before they were made — all as acceptable as any other
+    r = ORDER_RNG
+    if r is not None and r.random() < 0.35:
+        ts, ex = r.choice(ROOT_TIMES)
+        return delegating_md("root", dels, version, timestamp=ts, expiration=ex)
     return delegating_md("root", dels, version)
 
 
